@@ -148,7 +148,9 @@ def build(src):
         for j in pend_inputs:
             if j not in placed:
                 storage.append(j)
-    return gen.materialize(net, labels=labels, outputs=src['outs'], storage=storage)
+    # every fifth circuit went through copy.deepcopy, every fifth through pickle before it is used (gen.clone)
+    how = {1: 1, 3: 2}.get(src.get('vs', 0) % 5, 0)
+    return gen.clone(gen.materialize(net, labels=labels, outputs=src['outs'], storage=storage), how)
 
 
 def _table(results, labels):
